@@ -79,6 +79,61 @@ func (r *Raw) RoundTrip(id types.Specifier, req, resp proto4.Object, payload []b
 
 var errAborted = errors.New("raw renter aborted the exchange")
 
+// WrapSum adds deposit amounts modulo 2^128 and reports whether the true sum
+// exceeds 2^128-1.
+func WrapSum(ds []proto4.AccountDeposit) (total types.Currency, wrapped bool) {
+	for _, d := range ds {
+		var o bool
+		total, o = total.AddWithOverflow(d.Amount)
+		wrapped = wrapped || o
+	}
+	return
+}
+
+// WrappedRevision is the revision a renter gets when it pays total out of its
+// payout with wrap-around arithmetic instead of core's checked arithmetic.
+func WrappedRevision(fc types.V2FileContract, total types.Currency) types.V2FileContract {
+	fc.RevisionNumber++
+	fc.RenterOutput.Value, _ = fc.RenterOutput.Value.SubWithUnderflow(total)
+	fc.HostOutput.Value, _ = fc.HostOutput.Value.AddWithOverflow(total)
+	fc.RenterSignature, fc.HostSignature = types.Signature{}, types.Signature{}
+	return fc
+}
+
+// Abandon sends id+req and the first part of a payload, optionally stalls,
+// and closes the stream without reading anything: a renter that dies in the
+// middle of its own request body.
+func (r *Raw) Abandon(id types.Specifier, req proto4.Object, partial []byte, stall time.Duration) error {
+	s, err := r.dial()
+	if err != nil {
+		return err
+	}
+	defer s.Close()
+	if err := proto4.WriteRequest(s, id, req); err != nil {
+		return fmt.Errorf("write request: %w", err)
+	}
+	if len(partial) > 0 {
+		if _, err := s.Write(partial); err != nil {
+			return fmt.Errorf("write payload: %w", err)
+		}
+	}
+	if stall > 0 {
+		time.Sleep(stall)
+	}
+	return errAborted
+}
+
+// RequestLen returns the number of bytes id+req occupy on the wire.
+func RequestLen(id types.Specifier, req proto4.Object) int {
+	var n countWriter
+	proto4.WriteRequest(&n, id, req)
+	return int(n)
+}
+
+type countWriter int
+
+func (c *countWriter) Write(p []byte) (int, error) { *c += countWriter(len(p)); return len(p), nil }
+
 // IsAborted reports whether err is the raw renter's own abort marker.
 func IsAborted(err error) bool { return errors.Is(err, errAborted) }
 
@@ -272,6 +327,7 @@ type ReplenishCall struct {
 
 // ReplenishResult is the outcome of a raw replenish exchange.
 type ReplenishResult struct {
+	Wrapped  bool // the host's deposits sum past 2^128-1
 	Stage    Stage
 	Err      error
 	Resp     proto4.RPCReplenishAccountsResponse
@@ -309,8 +365,9 @@ func (r *Raw) Replenish(cs consensus.State, c ReplenishCall) (res ReplenishResul
 		return
 	}
 	res.Stage = StageResp1
-	total := res.Resp.TotalCost()
-	if total.IsZero() {
+	total, wrapped := WrapSum(res.Resp.Deposits)
+	res.Wrapped = wrapped
+	if total.IsZero() && !wrapped {
 		res.NoCost = true
 		res.Stage = StageComplete
 		res.Revision = c.Contract.Revision
@@ -320,6 +377,8 @@ func (r *Raw) Replenish(cs consensus.State, c ReplenishCall) (res ReplenishResul
 	if err != nil && c.Round2 == nil {
 		res.Err = fmt.Errorf("renter cannot build revision: %w", err)
 		return
+	} else if err != nil {
+		rev = WrappedRevision(c.Contract.Revision, total)
 	}
 	res.Revision, res.Usage = rev, usage
 	sigHash := cs.ContractSigHash(rev)
@@ -404,6 +463,7 @@ type FundCall struct {
 
 // FundResult is the outcome of a raw fund exchange.
 type FundResult struct {
+	Wrapped  bool // the deposits sum past 2^128-1
 	Err      error
 	Resp     proto4.RPCFundAccountsResponse
 	Revision types.V2FileContract
@@ -413,16 +473,18 @@ type FundResult struct {
 
 // Fund runs a raw RPCFundAccounts exchange.
 func (r *Raw) Fund(cs consensus.State, c FundCall) (res FundResult) {
-	var total types.Currency
-	for _, d := range c.Deposits {
-		total = total.Add(d.Amount)
-	}
+	// the raw renter adds with wrap-around: for deposits whose sum exceeds
+	// 2^128-1 it signs the revision that wrapped arithmetic produces
+	total, wrapped := WrapSum(c.Deposits)
+	res.Wrapped = wrapped
 	req := proto4.RPCFundAccountsRequest{ContractID: c.Contract.ID, Deposits: c.Deposits}
 	rev, usage, err := proto4.ReviseForFundAccounts(c.Contract.Revision, total)
 	if err == nil {
 		res.Built = true
 		res.Revision, res.Usage = rev, usage
 		req.RenterSignature = r.Key.SignHash(cs.ContractSigHash(rev))
+	} else {
+		rev = WrappedRevision(c.Contract.Revision, total) // handed to MutReq, not signed by default
 	}
 	if c.MutReq != nil {
 		c.MutReq(&req, rev)
